@@ -195,7 +195,7 @@ def v4(run, project):
     g = vals.functions().get("ValidValues.get")
     if c is None or g is None:
         raise AnalysisError("C04: ValidValues.__contains__/get not found")
-    rets = [s for s in c.body if isinstance(s, ast.Return)]
+    rets = [s for s in walk_no_nested(c) if isinstance(s, ast.Return)]
     p = c.args.args[1].arg
     ok = len(rets) == 1 and norm(rets[0].value) == f"self.get({p}) is not None"
     run.ob("V4", ok, "ValidValues.__contains__ is `get(value) is not None`",
@@ -206,6 +206,10 @@ def v4(run, project):
     if len(loops) != 1 or norm(loops[0].iter) != "self._values":
         raise AnalysisError("C04: ValidValues.get does not iterate self._values")
     lp = loops[0]
+    pre = [x for x in g.body[:g.body.index(lp)] if not (isinstance(x, ast.Expr) and isinstance(x.value, ast.Constant))]
+    run.ob("V4", not pre, "get(): nothing is decided before the items are examined",
+           f"`{norm(pre[0]).splitlines()[0][:80]}` runs before the item loop (a value can be accepted / rejected without consulting the set)"
+           if pre else "", module=vals, node=pre[0] if pre else g, func="ValidValues.get", construct="get prologue")
     v = lp.target.id
     ifs = [s for s in lp.body if isinstance(s, ast.If)]
     cont = [s for s in ifs if norm(s.test) == f"hasattr({v}, '__contains__') and {val} in {v}"]
@@ -233,7 +237,7 @@ def v4(run, project):
     nc = vals.functions().get("NamedRange.__contains__")
     if nc is None:
         raise AnalysisError("C04: NamedRange.__contains__ not found")
-    rets = [s for s in nc.body if isinstance(s, ast.Return)]
+    rets = [s for s in walk_no_nested(nc) if isinstance(s, ast.Return)]
     it = nc.args.args[1].arg
     ok = len(rets) == 1 and norm(rets[0].value) in (f"self._start <= {it} < self._end", f"{it} >= self._start and {it} < self._end",
                                                      f"{it} in range(self._start, self._end)")
@@ -251,7 +255,7 @@ def v4(run, project):
     cc = vals.functions().get("tpm_enum._tpm_enum.class_contains")
     if cc is None:
         raise AnalysisError("C04: tpm_enum.class_contains not found")
-    rets = [s for s in cc.body if isinstance(s, ast.Return)]
+    rets = [s for s in walk_no_nested(cc) if isinstance(s, ast.Return)]
     vv = cc.args.args[1].arg
     ok = len(rets) == 1 and norm(rets[0].value) == f"any((value == attr or (hasattr(attr, '__contains__') and value in attr) for attr in cls))".replace("value", vv)
     run.ob("V4", ok, "enum class membership = equality with or containment in a member",
